@@ -169,3 +169,30 @@ func vh_C12_closed() {
 	vAssert(err == os.ErrClosed, "every method returns os.ErrClosed after Close")
 	vAssert(len(vSentLog) == 1, "nothing is sent after Close")
 }
+
+// offset bookkeeping of the concurrent ReadFrom path (all goroutines interpreted)
+//
+//verif:atomic-invisible
+func vh_C12_offsets_readfrom_conc() {
+	f, c := vC12File()
+	defer vPeerDone(c)
+	c.maxPacket, c.useConcurrentWrites = 1, true
+	cur := int64(vNondetU32())
+	f.offset = cur
+	l := 1 + vChoice(2)
+	src := make([]byte, l)
+	var n int64
+	var err error
+	if vNondetBool() {
+		n, err = f.ReadFromWithConcurrency(&vReader{data: src}, 2)
+	} else {
+		n, err = f.ReadFrom(&vLenReader{vReader{data: src}}) // has Len(): concurrent when longer than a packet
+	}
+	vAssert(err == nil && n == int64(l), "whole source consumed")
+	vAssert(f.offset == cur+n, "ReadFrom advances the offset by the bytes transferred")
+}
+
+type vLenReader struct{ r vReader }
+
+func (p *vLenReader) Read(b []byte) (int, error) { return p.r.Read(b) }
+func (p *vLenReader) Len() int                     { return len(p.r.data) - p.r.pos }
